@@ -3,6 +3,7 @@
 #include <tbox/util/string.h>
 #include <tbox/http/url.h>
 #include <stdexcept>
+#include <clocale>
 using namespace c19;
 
 // ================================================================== hex strings
@@ -107,7 +108,7 @@ static bool ref_urldec(const uint8_t *s, size_t len, std::string &out) {      //
 static void url_roundtrip_one(const uint8_t *x, size_t n) {
   C.states++; const ShowIn si(x, n); const std::string xs((const char *)x, n);
   for (int pm = 0; pm < 2; pm++) { C.transitions++; std::string enc, dec, what;
-    { Guard g("url.UrlEncode", x, n); enc = UrlEncode(xs, pm != 0); if (g.hit()) viol(generic_san_sig("url-encode"), si + " " + Guard::desc()); }
+    { Guard g("url.UrlEncode", x, n); enc = pm ? UrlEncode(xs, true) : UrlEncode(xs) /* default argument: path_mode = false */; if (pm == 0 && enc != UrlEncode(xs, false)) viol("url-encode-default-argument-is-not-path_mode-false", si); if (g.hit()) viol(generic_san_sig("url-encode"), si + " " + Guard::desc()); }
     size_t esc = 0; bool safe = true; for (unsigned char c : enc) { if (c == '%') esc++; if (c < 0x21 || c > 0x7e) safe = false; }
     if (!safe) viol("url-encode-emits-non-printable-or-space", si + " path_mode=" + std::to_string(pm) + " enc=hex:" + hexs(enc.data(), enc.size()));
     std::string rd; if (!ref_urldec((const uint8_t *)enc.data(), enc.size(), rd) || rd != xs) viol("url-encode-not-decodable-by-rfc3986-reference", si + " path_mode=" + std::to_string(pm) + " enc=" + enc);
@@ -130,7 +131,15 @@ static void url_hostile_one(const uint8_t *s, size_t len) {
   if (valid && (threw || dec != want)) viol("url-decode-valid-input-wrong-result", show_in(s, len) + (threw ? " threw" : " got=hex:" + hexs(dec.data(), dec.size())));
   if (!valid) outcome(threw ? "url.UrlDecode: invalid/truncated escape -> exception" : "url.UrlDecode: invalid/truncated escape accepted leniently");
 }
-void sweep_url_rt() { for_enc_inputs(url_roundtrip_one); }
+void sweep_url_rt() {
+  for_enc_inputs(url_roundtrip_one);
+  // UrlEncode classifies bytes with std::isprint(), i.e. by the process locale.  All sweeps run in the "C" locale; one more pass over the small
+  // domain under C.UTF-8 (when installed) must give the same answers.  (Under an ISO-8859-x LC_CTYPE the current code would emit bytes >= 0x80
+  // unescaped - still an exact inverse pair, but not checked here: no such locale is installed on this image.)
+  if (g_part == 0 && !out_of_time()) { const char *l = setlocale(LC_ALL, "C.UTF-8"); if (!l) l = setlocale(LC_ALL, "C.utf8");
+    if (l) { g_align_note = " [LC_ALL=C.UTF-8]"; for_small_inputs(40, url_roundtrip_one); g_align_note.clear(); setlocale(LC_ALL, "C"); sample("url round trip small domain repeated under LC_ALL=C.UTF-8"); }
+    else printf("@INFO url-rt: locale C.UTF-8 not available, locale pass skipped\n"); }
+}
 // D_dec(url) = all strings of length 0..3 over 0..255 (16 843 009), [thorough: + length 4 over A40 = 2 560 000],
 // + truncations / A20 substitutions of UrlEncode-reference encodings of patterned inputs of length 1..40
 void sweep_url_dec() {
